@@ -142,7 +142,13 @@ func (m *Machine) deadlock() {
 
 // spawn starts a new target goroutine (parked until scheduled).
 func (m *Machine) spawn(fr *frame, site ssa.Instruction, fn value, args []value) *thread {
-	if len(m.threads) >= m.cfg.MaxThreads {
+	live := 0
+	for _, t := range m.threads {
+		if !t.done {
+			live++
+		}
+	}
+	if live >= m.cfg.MaxThreads {
 		panic(engineAbort{abortBudget, fmt.Sprintf("thread bound %d exceeded", m.cfg.MaxThreads)})
 	}
 	t := &thread{id: len(m.threads), wake: make(chan struct{}, 1)}
